@@ -7,6 +7,7 @@ import (
 	"encoding/hex"
 	"encoding/json"
 	"fmt"
+	"io"
 	"math/rand"
 	"os"
 	"os/exec"
@@ -15,6 +16,8 @@ import (
 	"sort"
 	"strings"
 	"sync"
+	"syscall"
+	"testing/iotest"
 	"time"
 
 	"github.com/llir/llvm/asm"
@@ -83,6 +86,40 @@ func entryPoints(dir, text string) map[string]outcome {
 	m, err = nil, nil
 	p, _ = mbt.Guard(func() { m, err = asm.ParseFile(path) })
 	out["ParseFile"] = summarize(m, err, p)
+	// readers that deliver the text in other pieces than one Read: one byte at a time, and with
+	// (0, nil) results in between (allowed by io.Reader)
+	m, err = nil, nil
+	p, _ = mbt.Guard(func() { m, err = asm.Parse("in.ll", iotest.OneByteReader(strings.NewReader(text))) })
+	out["Parse(one-byte reader)"] = summarize(m, err, p)
+	m, err = nil, nil
+	p, _ = mbt.Guard(func() { m, err = asm.Parse("in.ll", iotest.DataErrReader(iotest.HalfReader(strings.NewReader(text)))) })
+	out["Parse(half reader, data+EOF)"] = summarize(m, err, p)
+	// a path whose size is not known from Stat: a named pipe fed by another goroutine
+	fifo := filepath.Join(dir, "in.fifo")
+	os.Remove(fifo)
+	if syscall.Mkfifo(fifo, 0o600) == nil {
+		done := make(chan struct{})
+		go func() {
+			defer close(done)
+			if w, e := os.OpenFile(fifo, os.O_WRONLY, 0); e == nil {
+				io.WriteString(w, text)
+				w.Close()
+			}
+		}()
+		m, err = nil, nil
+		p, _ = mbt.Guard(func() { m, err = asm.ParseFile(fifo) })
+		out["ParseFile(named pipe)"] = summarize(m, err, p)
+		select {
+		case <-done:
+		case <-time.After(10 * time.Second):
+			// the parser never opened or never drained the pipe (the outcome above says so); release the writer
+			if r, e := os.OpenFile(fifo, os.O_RDONLY|syscall.O_NONBLOCK, 0); e == nil {
+				io.Copy(io.Discard, r)
+				r.Close()
+			}
+		}
+		os.Remove(fifo)
+	}
 	return out
 }
 
@@ -409,6 +446,7 @@ func Run(tier, replay string) {
 		}
 		for k := 0; k < 3; k++ {
 			inputs = append(inputs, input{name: fmt.Sprintf("big/%d", k), text: bigModule(rng, 12+7*k)})
+			inputs = append(inputs, input{name: fmt.Sprintf("blockaddress/%d", k), text: corpus.BlockAddrModule(8+8*k, 8)})
 		}
 		// clang output (many metadata nodes, attribute groups, types: hash-seeded map orders) and a
 		// sample of the Modules.tla feature matrix
